@@ -11,7 +11,7 @@ CONSTANTS
   AllowCancel = FALSE
   Reconnect = TRUE
   MaxAttempts = 2
-  FixExitOrder = FALSE
+  FixExitOrder = TRUE
   FixReadErr = TRUE
   FixStaleDelete = TRUE
 INVARIANT RetryMayRepeat
